@@ -124,7 +124,12 @@ impl<'a> Remote<'a> {
                     .with(|waker| cx.waker().will_wake(unsafe { (&*waker).assume_init_ref() }))
             {
                 // Waker is already up-to-date, leave it in place.
-                self.header().state.finish_setting_waker::<true>();
+                state = self.header().state.finish_setting_waker::<true>();
+                if state.has_result() || state.is_cancelled() {
+                    // Finished or dropped while we were in the critical section:
+                    // the executor skipped the wake-up, so look again ourselves.
+                    continue;
+                }
                 break Poll::Pending;
             }
 
@@ -143,7 +148,15 @@ impl<'a> Remote<'a> {
                 waker.write(cx.waker().clone());
             });
 
-            self.header().state.finish_setting_waker::<true>();
+            state = self.header().state.finish_setting_waker::<true>();
+
+            if state.has_result() || state.is_cancelled() {
+                // The task finished (or was dropped by the executor) while we were
+                // installing the waker. The executor saw us in the critical section
+                // and did not wake the new waker, so nobody would poll us again:
+                // go round once more and take the result now.
+                continue;
+            }
 
             break Poll::Pending;
         }
